@@ -417,7 +417,8 @@ impl Aggregate {
         if o.nontrivial {
             self.nontrivial += 1;
             self.distinct.insert(fnv(json));
-            if keep_sample && self.samples.len() < 3 && json.len() < 6000 {
+            // up to three written-out cases; the first one is kept whatever its size
+            if keep_sample && self.samples.len() < 3 && (json.len() < 6000 || self.samples.is_empty()) {
                 if let Ok(v) = serde_json::from_str(json) {
                     self.samples.push(v);
                 }
